@@ -55,6 +55,9 @@ CHECKS = {
  "C18": dict(tech="PBT (proptest) over curve configurations x dense utilisation sweeps, exact-rational piecewise-linear reference",
    text="Valid (constructed) and invalid seven-point configs over the full u32 range incl. adjacent/extreme points, legacy three-point configs and their migration; utilisation swept at every breakpoint +-{0,1,2} ulps, 0, 1, beyond, and >= 64 points per segment: defined, bounded by the end rates, exact at configured points, monotone, within the derived (dy+1)-ulp band of exact interpolation, borrow >= base, lending <= base for u <= 1, structural validity of accepted configs, and an accrual step succeeds.",
    ref="DESIGN.md §6 C18", note="Pure functions called natively; exact arithmetic with num-rational."),
+ "C19": dict(tech="PBT (proptest) scenarios + exact-rational flow oracle, exhaustive destination-substitution cells, campaign flow frame, emissions claim formula with derived ulp allowance",
+   text="Part A: generated fee-bearing banks (SPL / Token-2022 / transfer-fee, program fee on) with liquidity steered to 0 / fractions / +-2 of the buckets' whole parts: on every successful collect each bucket falls by exactly the whole number moved (<= floor, <= liquidity, all floors when liquidity is not binding), each destination (insurance vault, fee vault, ATA of the global fee wallet) receives its amount net of transfer fee, nothing else changes; 35 substitution cells per state must fail. Part B: in the shared campaign plus fee ops by 10 identities x 5 destinations, insurance / fee vaults decrease only by bankruptcy cover, admin withdrawals, or permissionless withdrawal into the admin-fixed destination. Part C: emissions with generated flags / rates / funding (incl. transfer-fee emission mints), many position sizes and elapsed times: sum(outstanding)+remaining never exceeds what was funded, each claim equals min(dt*amount/10^dec*rate/year, remaining) within a derived allowance, payouts only to the authority's (or configured) destination.",
+   ref="DESIGN.md §6 C19"),
  "C20": dict(tech="PBT (proptest), overflow-directed generators, exact big-integer/rational oracle on the public conversion functions",
    text="Kamino/Solend/Drift conversion and price-adjustment functions called directly: round trips never gain, Drift burn >= mint, adjusted price within derived truncation band of price x exact rate and monotone, fail-closed on overflow / zero divisors (never wrapped), staleness predicates at the slot/second boundary. The literal 'never exceeds price x exact rate' clause is violated by double flooring and recorded as two known findings (separate streams, so nothing else is masked).",
    ref="DESIGN.md §6 C20", note="Pure functions; venue state structs fabricated with bytemuck; exact arithmetic with num-bigint."),
